@@ -11,6 +11,7 @@ package example
 //@   property C09
 //@   ensures* user.owned.file: result != nil ==> result.SkipExist
 //@ func exampleSvrMain
+//@   params genpkg root svr
 //@   opt inline none
 //@   property C09
 //@   ensures* user.owned.file: result != nil ==> result.SkipExist
